@@ -2,7 +2,7 @@ import time
 
 from . import core
 from .core import C, ONE, norm_under_pc, norm_deep, pnot, relevant_pc, solve, peval
-from .values import SBit, SBits, SBytes, SInt, SLin, fresh_bit, ball, beq, tobit, bitpoly, as_sint, is_sym
+from .values import SBit, SBits, SBytes, SInt, SLin, SNeg, fresh_bit, ball, beq, tobit, bitpoly, as_sint, is_sym
 
 LOG = []  # (name, backend, seconds)
 
@@ -32,6 +32,8 @@ def eq(a, b):
         r = (a == b) if isinstance(a, SBits) else (b == a)
     elif isinstance(a, (SBytes,)) or isinstance(b, SBytes):
         r = (a == b) if isinstance(a, SBytes) else (b == a)
+    elif isinstance(a, SNeg) or isinstance(b, SNeg):
+        r = (a == b) if isinstance(a, SNeg) else (b == a)
     elif isinstance(a, (SInt, SLin, SBit)) or isinstance(b, (SInt, SLin, SBit)):
         a2, b2 = as_sint(a), as_sint(b)
         r = (SInt.lift(a2) == b2)
@@ -101,6 +103,8 @@ def concretise(x, env):
         return sum((concretise(b, env) if isinstance(b, SBit) else b) << i for i, b in enumerate(x.bits))
     if isinstance(x, SLin):
         return concretise(x.to_sint(), env)
+    if isinstance(x, SNeg):
+        return -concretise(x.mag, env)
     if isinstance(x, SBits):
         from bitarray import bitarray
 
